@@ -15,6 +15,7 @@
 //
 // header:  constrained space=<proj|atlas|tb> con=<name> n=<ambient> delta=<bits> lambda=<bits> tol=<bits> maxit=<k>
 //                      lo=<bits> hi=<bits> seed=<k> obs=<none|axis:lobits:hibits>
+//                      [aeps= arho= aalpha= aexp= abackoff=<bits> amaxc=<k> asep=<0|1>]   non-default atlas parameters
 // ops (doubles are u64 bit patterns, a state is n of them):
 //   proj <x>                         -> ret=<b> x=<xout> | <events>
 //   sat <x>                          -> sat=<b> | <events>
@@ -22,6 +23,8 @@
 //   clog <0|1>                       -> ok        (chart log on/off; when on every line gets ` || <chart log>` appended)
 //   newchart <x>                     -> chart=<cid|-1>     (AtlasStateSpace::newChart)
 //   ipscan <cid>                     -> scanned=<k>  (directed inPolytope/borderCheck queries around every boundary of the chart)
+//   setdelta <bits> | setlambda <bits> | aclear        -> ok   (mid-script: ConstrainedStateSpace::setDelta / setLambda, AtlasStateSpace::clear)
+//   interpo <1|2> <from> <to> <t>    -> r=<x> | <events>   (interpolate with the output aliased to from (1) / to (2))
 //   settol <bits> | setmaxiter <k>   -> ok        (Constraint::setTolerance / setMaxIterations mid-script; existing charts are kept)
 //   anchor <x>                       -> ok                            (AtlasStateSpace::anchorChart; no-op for proj)
 //   sample u | sample n <x> <d> | sample g <x> <sd>   -> s=<x> | <events>
@@ -402,10 +405,11 @@ struct RecCon : ob::Constraint
     unsigned n, m;
     mutable int depth = 0;  // > 0 while inside the base-class numerical jacobian
     bool numJac = false;
+    bool silent = false;  // component of a ConstraintIntersection: the intersection object does the recording
 
     static unsigned coDim(const std::string &k)
     {
-        return (k == "spherepl" || k == "nearpar") ? 2 : 1;
+        return (k == "spherepl" || k == "nearpar" || k == "isect") ? 2 : 1;
     }
     RecCon(const std::string &k, unsigned n_, double tol, unsigned maxit)
       : ob::Constraint(n_, coDim(k), tol), kind(k), n(n_), m(coDim(k))
@@ -450,6 +454,8 @@ struct RecCon : ob::Constraint
             out[0] = std::sqrt(sumsq(x)) - 1.0;
             out[1] = x[n - 1] - 0.3 * x[0] - 0.1;
         }
+        else if (kind == "plane2")
+            out[0] = x[n - 1] - 0.3 * x[0] - 0.1;
         else if (kind == "quartic")
         {
             double a = sumsq(x) - 1.0;
@@ -470,7 +476,7 @@ struct RecCon : ob::Constraint
     void function(const Eigen::Ref<const Eigen::VectorXd> &x, Eigen::Ref<Eigen::VectorXd> out) const override
     {
         eval(x, out);
-        if (g_rec && depth == 0 && g_nest == 0)
+        if (!silent && g_rec && depth == 0 && g_nest == 0)
         {
             evTok("F");
             evVec(x);
@@ -480,7 +486,7 @@ struct RecCon : ob::Constraint
 
     void jacobian(const Eigen::Ref<const Eigen::VectorXd> &x, Eigen::Ref<Eigen::MatrixXd> out) const override
     {
-        if (g_rec && depth == 0 && g_nest == 0)
+        if (!silent && g_rec && depth == 0 && g_nest == 0)
         {
             evTok("J");
             evVec(x);
@@ -522,6 +528,11 @@ struct RecCon : ob::Constraint
         else if (kind == "plane")
             for (unsigned i = 0; i < n; ++i)
                 out(0, i) = (double)(i + 1) / (double)(n + 1);
+        else if (kind == "plane2")
+        {
+            out(0, 0) += -0.3;
+            out(0, n - 1) += 1.0;
+        }
         else if (kind == "quartic")
         {
             double a = sumsq(x) - 1.0;
@@ -546,6 +557,92 @@ struct RecCon : ob::Constraint
     bool project(Eigen::Ref<Eigen::VectorXd> x) const override
     {
         Eigen::VectorXd in = x;
+        if (!silent && g_rec && depth == 0 && g_nest == 0)
+            evTok("B");
+        bool r = ob::Constraint::project(x);
+        if (!silent && g_rec && depth == 0 && g_nest == 0)
+        {
+            evTok("P");
+            evVec(in);
+            evTok(r ? "1" : "0");
+            evVec(x);
+        }
+        return r;
+    }
+
+    bool isSatisfied(const Eigen::Ref<const Eigen::VectorXd> &x) const override
+    {
+        bool r = ob::Constraint::isSatisfied(x);
+        if (!silent && g_rec && depth == 0 && g_nest == 0)
+        {
+            evTok("S");
+            evVec(x);
+            evTok(r ? "1" : "0");
+        }
+        return r;
+    }
+    double distance(const Eigen::Ref<const Eigen::VectorXd> &x) const override
+    {
+        ++depth;   // its inner function() call is not a separate oracle question
+        double d = ob::Constraint::distance(x);
+        --depth;
+        if (!silent && g_rec && depth == 0 && g_nest == 0)
+        {
+            evTok("CD");
+            evVec(x);
+            evTok(vp::bits(d));
+        }
+        return d;
+    }
+    using ob::Constraint::distance;
+    using ob::Constraint::function;
+    using ob::Constraint::isSatisfied;
+    using ob::Constraint::jacobian;
+    using ob::Constraint::project;
+};
+
+
+// The library's own ConstraintIntersection (Constraint.h) over two plain components: sphere and the plane
+// x[n-1] - 0.3 x[0] - 0.1 = 0 — the same manifold as the hand-stacked kind "spherepl", but function() / jacobian() are the
+// library's stacking code.  The intersection object records (same event format, m = 2); the components are silent.
+struct RecIsect : ob::ConstraintIntersection
+{
+    mutable int depth = 0;
+    bool silent = false;
+    static std::vector<ob::ConstraintPtr> parts(unsigned n, double tol, unsigned maxit)
+    {
+        auto c1 = std::make_shared<RecCon>("sphere", n, tol, maxit);
+        auto c2 = std::make_shared<RecCon>("plane2", n, tol, maxit);
+        c1->silent = c2->silent = true;
+        return {c1, c2};
+    }
+    RecIsect(unsigned n, double tol, unsigned maxit) : ob::ConstraintIntersection(n, parts(n, tol, maxit))
+    {
+        setTolerance(tol);
+        setMaxIterations(maxit);
+    }
+    void function(const Eigen::Ref<const Eigen::VectorXd> &x, Eigen::Ref<Eigen::VectorXd> out) const override
+    {
+        ob::ConstraintIntersection::function(x, out);
+        if (g_rec && depth == 0 && g_nest == 0)
+        {
+            evTok("F");
+            evVec(x);
+            evVec(out);
+        }
+    }
+    void jacobian(const Eigen::Ref<const Eigen::VectorXd> &x, Eigen::Ref<Eigen::MatrixXd> out) const override
+    {
+        if (g_rec && depth == 0 && g_nest == 0)
+        {
+            evTok("J");
+            evVec(x);
+        }
+        ob::ConstraintIntersection::jacobian(x, out);
+    }
+    bool project(Eigen::Ref<Eigen::VectorXd> x) const override
+    {
+        Eigen::VectorXd in = x;
         if (g_rec && depth == 0 && g_nest == 0)
             evTok("B");
         bool r = ob::Constraint::project(x);
@@ -558,7 +655,6 @@ struct RecCon : ob::Constraint
         }
         return r;
     }
-
     bool isSatisfied(const Eigen::Ref<const Eigen::VectorXd> &x) const override
     {
         bool r = ob::Constraint::isSatisfied(x);
@@ -572,7 +668,7 @@ struct RecCon : ob::Constraint
     }
     double distance(const Eigen::Ref<const Eigen::VectorXd> &x) const override
     {
-        ++depth;   // its inner function() call is not a separate oracle question
+        ++depth;
         double d = ob::Constraint::distance(x);
         --depth;
         if (g_rec && depth == 0 && g_nest == 0)
@@ -704,7 +800,7 @@ int main()
         }
         if (n < 3 || n > 8 || (spaceKind != "proj" && spaceKind != "atlas" && spaceKind != "tb"))
             throw 1;
-        static const char *kinds[] = {"sphere", "spherenj", "torus", "plane", "spherepl", "quartic", "quarticg", "nearpar"};
+        static const char *kinds[] = {"sphere", "spherenj", "torus", "plane", "spherepl", "quartic", "quarticg", "nearpar", "isect"};
         bool okk = false;
         for (auto k : kinds)
             okk |= conKind == k;
@@ -719,7 +815,11 @@ int main()
 
     auto rv = std::make_shared<ob::RealVectorStateSpace>(n);
     rv->setBounds(lo, hi);
-    auto con = std::make_shared<RecCon>(conKind, n, tol, maxit);
+    std::shared_ptr<ob::Constraint> con;
+    if (conKind == "isect")
+        con = std::make_shared<RecIsect>(n, tol, maxit);
+    else
+        con = std::make_shared<RecCon>(conKind, n, tol, maxit);
     std::shared_ptr<ob::ConstrainedStateSpace> css;
     std::shared_ptr<ob::ConstrainedSpaceInformation> csi;
     if (spaceKind == "proj")
@@ -739,6 +839,32 @@ int main()
     }
     css->setDelta(delta);
     css->setLambda(lambda);
+    // non-default atlas parameters (optional header keys; read back by the `params` op for the model)
+    if (auto *at0 = dynamic_cast<ob::AtlasStateSpace *>(css.get()))
+    {
+        try
+        {
+            if (h.count("aeps"))
+                at0->setEpsilon(*vp::parseBits(h.at("aeps")));
+            if (h.count("arho"))
+                at0->setRho(*vp::parseBits(h.at("arho")));
+            if (h.count("aalpha"))
+                at0->setAlpha(*vp::parseBits(h.at("aalpha")));
+            if (h.count("aexp"))
+                at0->setExploration(*vp::parseBits(h.at("aexp")));
+            if (h.count("abackoff"))
+                at0->setBackoff(*vp::parseBits(h.at("abackoff")));
+            if (h.count("amaxc"))
+                at0->setMaxChartsPerExtension((unsigned)*vp::parseNat(h.at("amaxc")));
+            if (h.count("asep"))
+                at0->setSeparated(h.at("asep") == "1");
+        }
+        catch (std::exception &e)
+        {
+            std::cout << "bad-header atlas parameter: " << e.what() << "\n";
+            return 2;
+        }
+    }
     auto valid = std::make_shared<RecValid>(csi, n);
     valid->axis = obsAxis;
     valid->lo = obsLo;
@@ -849,6 +975,38 @@ int main()
                         }
                 }
                 std::cout << "scanned=" << cnt << "\n";
+            }
+            else if (op == "setdelta" && t.size() == 2 && vp::parseBits(t[1]))
+            {
+                css->setDelta(*vp::parseBits(t[1]));   // mid-script; atlas rho / chart radii keep the values they were built with
+                std::cout << "ok\n";
+            }
+            else if (op == "setlambda" && t.size() == 2 && vp::parseBits(t[1]))
+            {
+                css->setLambda(*vp::parseBits(t[1]));
+                std::cout << "ok\n";
+            }
+            else if (op == "aclear" && t.size() == 1)
+            {
+                // AtlasStateSpace::clear(): every non-anchor chart is deleted, the anchors are re-created
+                if (atlas)
+                {
+                    atlas->clear();
+                    g_chartId.clear();
+                    g_announced.clear();
+                }
+                std::cout << "ok\n";
+            }
+            else if (op == "interpo" && t.size() == 3 + 2 * n && (t[1] == "1" || t[1] == "2"))
+            {
+                // caller-owned output object aliased with an input: interpolate(a, b, t, a) / interpolate(a, b, t, b)
+                i = 2;
+                readState(t, i, a);
+                readState(t, i, b);
+                double tt = needBits(t, i);
+                ob::State *outp = t[1] == "1" ? a : b;
+                css->interpolate(a, b, tt, outp);
+                std::cout << "r= " << showState(outp) << " |" << g_ev << "\n";
             }
             else if (op == "settol" && t.size() == 2 && vp::parseBits(t[1]))
             {
